@@ -406,6 +406,9 @@ func c16Check(c c16Case) *evid.Fail {
 		case "silence_pooled", "silence_control":
 			// the backend stops answering on one connection but keeps it open: the proxy must give up on it after
 			// the idle timeout and replace it
+			if a.Op == "silence_pooled" && (!w.member[h] || !w.up[h]) {
+				continue // a node that left the ring may still have connections the proxy is about to close anyway
+			}
 			var target *fakecass.Conn
 			for _, cn := range e.Cluster.Host(h).Conns() {
 				if cn.IsRegistered() == (a.Op == "silence_control") {
@@ -430,7 +433,7 @@ func c16Check(c c16Case) *evid.Fail {
 				time.Sleep(time.Millisecond)
 			}
 			if d := time.Since(t0); d < c16Idle-c16Heartbeat-10*time.Millisecond {
-				return evid.Failf("silent-connection-closed-early", "connection closed %v after it went silent, idle timeout is %v", d, c16Idle)
+				return evid.Failf("silent-connection-closed-early", "%s: connection closed %v after it went silent, idle timeout is %v", what, d, c16Idle)
 			}
 		case "silence_inflight":
 			// a request is in flight on a connection that then goes silent (no FIN/RST): the connection must still be
